@@ -1617,6 +1617,10 @@ class AstEval:
         """Evaluate binary operator: //."""
         return (await self.aeval(arg0)) // (await self.aeval(arg1))
 
+    async def ast_binop_matmult(self, arg0, arg1):
+        """Evaluate binary operator: @."""
+        return (await self.aeval(arg0)) @ (await self.aeval(arg1))
+
     async def ast_unaryop(self, arg):
         """Evaluate unary operators by calling function based on class."""
         name = "ast_unaryop_" + arg.op.__class__.__name__.lower()
